@@ -303,8 +303,8 @@ func Generate(r *rand.Rand, p Plan, emit func(Input) bool) {
 		if stop {
 			return
 		}
-		if in.Heavy && p.NoHeavy {
-			return
+		if in.Heavy && p.NoHeavy && in.Family != "lengths" {
+			return // (declared-length cases only cost one buffer allocation: kept)
 		}
 		if !emit(in) {
 			stop = true
